@@ -73,7 +73,9 @@ def differs(a, b):
         return differs([a[k] for k in sorted(a)], [b[k] for k in sorted(a)])
     if isinstance(a, (list, tuple, dict)) or isinstance(b, (list, tuple, dict)): return True
     if a is None or b is None: return not (a is None and b is None)
-    if isinstance(a, str) or isinstance(b, str): return a != b
+    if isinstance(a, str) or isinstance(b, str):
+        if a == '*' or b == '*': return False           # wildcard: any script error
+        return a != b
     if isinstance(a, bool): a = int(a)
     if isinstance(b, bool): b = int(b)
     sa, sb = is_sym(a), is_sym(b)
